@@ -3765,6 +3765,10 @@ class PyCdlib:
         dotdot.new_dotdot(vd, parent, vd.sequence_number(), rock_ridge,
                           vd.logical_block_size(), relocated, xa, file_mode,
                           time.time())
+        if parent.parent is not None:
+            # The 'dotdot' record describes the directory that contains the new
+            # directory, which may already be larger than one block.
+            dotdot.data_length = parent.parent.data_length
         self._add_child_to_dr(dotdot)
         return dotdot
 
